@@ -452,22 +452,66 @@ theorem resume_shown (d : XDrv) (m : VModes) (A : Attrs) (hm : d.mode.mouse ≤ 
   · simp only; split <;> simp_all
 
 
-theorem attrParams_nonneg (a : Attr) (v : Int) (h : inDomain a v = true) : ∀ p ∈ attrParams a v, 0 ≤ p.val := by
+/-! ### colour values -/
+
+/-- The colour values with an exact encoding: a palette index, or a palette index with an RGB8 refinement. -/
+def ColDom (v : Int) : Prop := (-1 ≤ v ∧ v ≤ 255) ∨ (1000 ≤ v ∧ v < 1000 + 257 * 16777216)
+
+theorem colIndex_range (v : Int) (h : ColDom v) : -1 ≤ colIndex v ∧ colIndex v ≤ 255 := by
+  unfold colIndex ColDom at *
+  split <;> omega
+
+theorem colIndex_palette (v : Int) (h : v < 1000) : colIndex v = v := by
+  unfold colIndex; rw [if_pos h]
+
+theorem colRGB_range (v : Int) : (0 ≤ colR v ∧ colR v ≤ 255) ∧ (0 ≤ colG v ∧ colG v ≤ 255) ∧ (0 ≤ colB v ∧ colB v ≤ 255) := by
+  unfold colR colG colB; omega
+
+theorem paletteParams_nonneg (on off i : Int) (hon : 0 ≤ on) (hoff : 0 ≤ off) (hi : -1 ≤ i) :
+    ∀ p ∈ paletteParams on off i, 0 ≤ p.val := by
   intro p hp
-  cases a <;> simp [inDomain] at h <;> simp only [attrParams, colourParams] at hp
+  unfold paletteParams at hp
+  split at hp
+  · simp at hp; subst hp; exact hoff
+  · split at hp
+    · simp at hp; subst hp; simp only; omega
+    · split at hp
+      · simp at hp; subst hp; simp only; omega
+      · simp at hp
+        rcases hp with hp | hp | hp <;> subst hp <;> simp only <;> omega
+
+theorem colourParams_nonneg (rgb8 : Bool) (on off v : Int) (hon : 0 ≤ on) (hoff : 0 ≤ off) (h : ColDom v) :
+    ∀ p ∈ colourParams rgb8 on off v, 0 ≤ p.val := by
+  intro p hp
+  have hr := colIndex_range v h
+  have hc := colRGB_range v
+  unfold colourParams at hp
+  split at hp
+  · simp at hp; subst hp; exact hoff
+  · split at hp
+    · simp at hp
+      rcases hp with hp | hp | hp | hp | hp <;> subst hp <;> simp <;> omega
+    · exact paletteParams_nonneg on off _ hon hoff hr.1 p hp
+
+theorem attrParams_nonneg (rgb8 : Bool) (a : Attr) (v : Int) (h : inDomain a v = true) : ∀ p ∈ attrParams rgb8 a v, 0 ≤ p.val := by
+  intro p hp
+  cases a
+  case fg => exact colourParams_nonneg rgb8 30 39 v (by omega) (by omega) (by simpa [inDomain, ColDom] using h) p hp
+  case bg => exact colourParams_nonneg rgb8 40 49 v (by omega) (by omega) (by simpa [inDomain, ColDom] using h) p hp
+  all_goals (simp [inDomain] at h; simp only [attrParams] at hp)
   all_goals (repeat' split at hp) <;> simp at hp <;> (try (rcases hp with hp | hp | hp)) <;> (try subst hp) <;> (try simp) <;> (try omega)
 
-theorem deltaParams_nonneg (delta : PenMap) (h : ∀ a v, delta a = some v → inDomain a v = true) :
-    ∀ p ∈ deltaParams delta, 0 ≤ p.val := by
+theorem deltaParams_nonneg (rgb8 : Bool) (delta : PenMap) (h : ∀ a v, delta a = some v → inDomain a v = true) :
+    ∀ p ∈ deltaParams rgb8 delta, 0 ≤ p.val := by
   intro p hp
   simp only [deltaParams, List.mem_flatMap] at hp
   obtain ⟨a, _, hpa⟩ := hp
   cases hd : delta a with
   | none => simp [hd] at hpa
-  | some v => simp only [hd] at hpa; exact attrParams_nonneg a v (h a v hd) p hpa
+  | some v => simp only [hd] at hpa; exact attrParams_nonneg rgb8 a v (h a v hd) p hpa
 
-theorem attrParams'_eq (single : Bool) (a : Attr) (v : Int) (h : inDomain a v = true) :
-    attrParams' single a v = attrParams a v := by
+theorem attrParams'_eq (single rgb8 : Bool) (a : Attr) (v : Int) (h : inDomain a v = true) :
+    attrParams' single rgb8 a v = attrParams rgb8 a v := by
   unfold attrParams'
   split
   · rename_i hc
@@ -477,23 +521,23 @@ theorem attrParams'_eq (single : Bool) (a : Attr) (v : Int) (h : inDomain a v = 
     omega
   · rfl
 
-theorem deltaParams'_eq (single : Bool) (delta : PenMap) (h : ∀ a v, delta a = some v → inDomain a v = true) :
-    deltaParams' single delta = deltaParams delta := by
+theorem deltaParams'_eq (single rgb8 : Bool) (delta : PenMap) (h : ∀ a v, delta a = some v → inDomain a v = true) :
+    deltaParams' single rgb8 delta = deltaParams rgb8 delta := by
   unfold deltaParams' deltaParams
   congr 1
   funext a
   cases hd : delta a with
   | none => rfl
-  | some v => exact attrParams'_eq single a v (h a v hd)
+  | some v => exact attrParams'_eq single rgb8 a v (h a v hd)
 
 /-- `chpen` read by the terminal: an SGR, or nothing. -/
 theorem feed_drvChpen (cfg : Cfg) (d : XDrv) (delta final : PenMap) (m : VModes) (A : Attrs)
     (h : ∀ a v, delta a = some v → inDomain a v = true) :
     VT.feed ⟨.ground, m, A⟩ (drvChpen cfg d delta final) =
-      ⟨.ground, m, if (deltaParams delta).isEmpty then A
-        else sgrRun (groupsAcc (decide (d.cap.csiSubColon ≠ 0)) [] [] (if isNondefault final then deltaParams delta else [])) A⟩ := by
+      ⟨.ground, m, if (deltaParams d.rgbOn delta).isEmpty then A
+        else sgrRun (groupsAcc (decide (d.cap.csiSubColon ≠ 0)) [] [] (if isNondefault final then deltaParams d.rgbOn delta else [])) A⟩ := by
   unfold drvChpen
-  rw [deltaParams'_eq _ delta h]
+  rw [deltaParams'_eq _ _ delta h]
   simp only
   split
   · rfl
@@ -501,7 +545,7 @@ theorem feed_drvChpen (cfg : Cfg) (d : XDrv) (delta final : PenMap) (m : VModes)
     rw [List.append_assoc, feed_append, h1, feed_render]
     intro p hp
     split at hp
-    · exact deltaParams_nonneg delta h p hp
+    · exact deltaParams_nonneg _ delta h p hp
     · simp at hp
 
 /-- The ghost (values last set) and the driver's shadow agree; with guarded replies, a value that
@@ -515,6 +559,7 @@ structure GhostOk (cfg : Cfg) (d : XDrv) (g : Ghost) : Prop where
   shape : ∀ v, g.shape = some v → v = d.mode.cursorshape ∧ (cfg.repliesGuarded = true → d.init.cursorshape ≠ 0)
   visInit : cfg.repliesGuarded = true → d.mode.cursorvis = 0 → d.init.cursorvis ≠ 0
   le1 : d.mode.altscreen ≤ 1 ∧ d.mode.cursorvis ≤ 1 ∧ d.mode.keypad ≤ 1 ∧ d.mode.cursorblink ≤ 1
+  rgb8 : ∀ v, g.rgb8 = some v → v = d.cap.rgb8 ∧ (v = 0 ∨ v = 1) ∧ (cfg.rgb8Guarded = true → d.init.rgb8 ≠ 0)
 
 theorem bool01_cases (v : Int) : (v = 0 ∧ bool01 v = 0) ∨ (v ≠ 0 ∧ bool01 v = 1) := by
   unfold bool01; by_cases h : v = 0 <;> simp [h]
@@ -528,9 +573,9 @@ theorem setctl_ghost (cfg : Cfg) (d : XDrv) (g : Ghost) (c : Option Ctl) (v : In
     (hmouse : c = some .mouse → 0 ≤ v ∧ v ≤ 3)
     (hkp : c = some .keypadApp → cfg.keypadRecorded = true ∨ v = 0) :
     GhostOk cfg (setctlInt cfg d c v).1 (if (setctlInt cfg d c v).2.2 = true then g.set c v else g) := by
-  obtain ⟨h1, h2, h3, h4, h5, h6, h7, h8⟩ := hg
+  obtain ⟨h1, h2, h3, h4, h5, h6, h7, h8, h9⟩ := hg
   cases c with
-  | none => simp [setctlInt]; exact ⟨h1, h2, h3, h4, h5, h6, h7, h8⟩
+  | none => simp [setctlInt]; exact ⟨h1, h2, h3, h4, h5, h6, h7, h8, h9⟩
   | some c =>
     cases c
     case altscreen =>
@@ -538,11 +583,11 @@ theorem setctl_ghost (cfg : Cfg) (d : XDrv) (g : Ghost) (c : Option Ctl) (v : In
       split
       · rename_i heq
         simp only [if_true, Ghost.set]
-        refine ⟨?_, h2, h3, h4, h5, h6, h7, h8⟩
+        refine ⟨?_, h2, h3, h4, h5, h6, h7, h8, h9⟩
         show bool01 v = (d.mode.altscreen : Int)
         rcases bool01_cases v with ⟨hv, hb⟩ | ⟨hv, hb⟩ <;> simp [hv] at heq <;> rw [hb] <;> omega
       · simp only [if_true, Ghost.set]
-        refine ⟨?_, h2, h3, h4, h5, h6, h7, ?_⟩
+        refine ⟨?_, h2, h3, h4, h5, h6, h7, ?_, h9⟩
         · simp only [ModeLayout.w_mode_altscreen]; exact (wrapU1_bool_int v).symm
         · simp only [ModeLayout.w_mode_altscreen]
           rcases bool01_cases v with ⟨_, hb⟩ | ⟨_, hb⟩ <;> rw [hb] <;> simp [wrapU] <;> omega
@@ -551,11 +596,11 @@ theorem setctl_ghost (cfg : Cfg) (d : XDrv) (g : Ghost) (c : Option Ctl) (v : In
       split
       · rename_i heq
         simp only [if_true, Ghost.set]
-        refine ⟨h1, ?_, h3, h4, h5, h6, h7, h8⟩
+        refine ⟨h1, ?_, h3, h4, h5, h6, h7, h8, h9⟩
         show bool01 v = (d.mode.cursorvis : Int)
         rcases bool01_cases v with ⟨hv, hb⟩ | ⟨hv, hb⟩ <;> simp [hv] at heq <;> rw [hb] <;> omega
       · simp only [if_true, Ghost.set]
-        refine ⟨h1, ?_, h3, h4, h5, h6, ?_, ?_⟩
+        refine ⟨h1, ?_, h3, h4, h5, h6, ?_, ?_, h9⟩
         · simp only [ModeLayout.w_mode_cursorvis]; exact (wrapU1_bool_int v).symm
         · intro hgd _
           simp only [hgd, if_true, ModeLayout.w_initialised_cursorvis]; decide
@@ -566,7 +611,7 @@ theorem setctl_ghost (cfg : Cfg) (d : XDrv) (g : Ghost) (c : Option Ctl) (v : In
       split
       · rename_i heq
         simp only [if_true, Ghost.set]
-        refine ⟨h1, h2, h3, h4, ?_, h6, h7, h8⟩
+        refine ⟨h1, h2, h3, h4, ?_, h6, h7, h8, h9⟩
         intro x hx
         simp only [Option.some.injEq] at hx
         subst hx
@@ -574,7 +619,7 @@ theorem setctl_ghost (cfg : Cfg) (d : XDrv) (g : Ghost) (c : Option Ctl) (v : In
         have := heq.2
         rcases bool01_cases v with ⟨hv, hb⟩ | ⟨hv, hb⟩ <;> simp [hv] at this <;> rw [hb] <;> omega
       · simp only [if_true, Ghost.set]
-        refine ⟨h1, h2, h3, h4, ?_, h6, h7, ?_⟩
+        refine ⟨h1, h2, h3, h4, ?_, h6, h7, ?_, h9⟩
         · intro x hx
           simp only [Option.some.injEq] at hx
           subst hx
@@ -589,9 +634,9 @@ theorem setctl_ghost (cfg : Cfg) (d : XDrv) (g : Ghost) (c : Option Ctl) (v : In
       split
       · rename_i heq
         simp only [if_true, Ghost.set]
-        exact ⟨h1, h2, heq.symm, h4, h5, h6, h7, h8⟩
+        exact ⟨h1, h2, heq.symm, h4, h5, h6, h7, h8, h9⟩
       · simp only [if_true, Ghost.set]
-        refine ⟨h1, h2, ?_, h4, h5, h6, h7, h8⟩
+        refine ⟨h1, h2, ?_, h4, h5, h6, h7, h8, h9⟩
         show v = ((wrapU ModeLayout.w_mode_mouse v : Nat) : Int)
         rw [show ModeLayout.w_mode_mouse = 2 from rfl, wrapU2_small _ hv]; omega
     case cursorshape =>
@@ -599,7 +644,7 @@ theorem setctl_ghost (cfg : Cfg) (d : XDrv) (g : Ghost) (c : Option Ctl) (v : In
       split
       · rename_i heq
         simp only [if_true, Ghost.set]
-        refine ⟨h1, h2, h3, h4, h5, ?_, h7, h8⟩
+        refine ⟨h1, h2, h3, h4, h5, ?_, h7, h8, h9⟩
         intro x hx
         show (x : Int) = _ ∧ _
         split at hx
@@ -607,7 +652,7 @@ theorem setctl_ghost (cfg : Cfg) (d : XDrv) (g : Ghost) (c : Option Ctl) (v : In
           exact ⟨heq.2.symm, fun _ => heq.1⟩
         · cases hx
       · simp only [if_true, Ghost.set]
-        refine ⟨h1, h2, h3, h4, h5, ?_, h7, h8⟩
+        refine ⟨h1, h2, h3, h4, h5, ?_, h7, h8, h9⟩
         intro x hx
         split at hx
         · rename_i hr
@@ -622,14 +667,14 @@ theorem setctl_ghost (cfg : Cfg) (d : XDrv) (g : Ghost) (c : Option Ctl) (v : In
       split
       · rename_i heq
         simp only [if_true, Ghost.set]
-        refine ⟨h1, h2, h3, ?_, h5, h6, h7, h8⟩
+        refine ⟨h1, h2, h3, ?_, h5, h6, h7, h8, h9⟩
         show bool01 v = (d.mode.keypad : Int)
         rcases bool01_cases v with ⟨hv, hb⟩ | ⟨hv, hb⟩ <;> simp [hv] at heq <;> rw [hb] <;> omega
       · rename_i hne
         simp only [if_true, Ghost.set]
         by_cases hrec : cfg.keypadRecorded = true
         · simp only [hrec, if_true]
-          refine ⟨h1, h2, h3, ?_, h5, h6, h7, ?_⟩
+          refine ⟨h1, h2, h3, ?_, h5, h6, h7, ?_, h9⟩
           · simp only [ModeLayout.w_mode_keypad]; exact (wrapU1_bool_int v).symm
           · simp only [ModeLayout.w_mode_keypad]
             rcases bool01_cases v with ⟨_, hb⟩ | ⟨_, hb⟩ <;> rw [hb] <;> simp [wrapU] <;> omega
@@ -640,13 +685,19 @@ theorem setctl_ghost (cfg : Cfg) (d : XDrv) (g : Ghost) (c : Option Ctl) (v : In
           · subst hv0; simp [hz] at hne
     case capRgb8 =>
       simp only [setctlInt, if_true, Ghost.set]
-      exact ⟨h1, h2, h3, h4, h5, h6, h7, h8⟩
-    all_goals (simp [setctlInt]; exact ⟨h1, h2, h3, h4, h5, h6, h7, h8⟩)
+      refine ⟨h1, h2, h3, h4, h5, h6, h7, h8, ?_⟩
+      intro x hx
+      simp only [Option.some.injEq] at hx
+      subst hx
+      refine ⟨?_, ?_, fun hgd => by simp [hgd]⟩
+      · simp only [ModeLayout.w_cap_rgb8]; exact (wrapU1_bool_int v).symm
+      · rcases bool01_cases v with ⟨_, hb⟩ | ⟨_, hb⟩ <;> simp [hb]
+    all_goals (simp [setctlInt]; exact ⟨h1, h2, h3, h4, h5, h6, h7, h8, h9⟩)
 
 
 /-! ### the invariant of the mode life cycle -/
 
-/-- The operations that trigger one of the three defects of the unrepaired tree. -/
+/-- The operations that trigger one of the defects of the unrepaired tree. -/
 def trigger (cfg : Cfg) (s : Sys) (g : Ghost) : Op → Bool
   | .ctl (some .keypadApp) v => !cfg.keypadRecorded && decide (v ≠ 0)
   | .tick nosetup => !cfg.keypadRecorded && !nosetup && (match s.top with
@@ -656,6 +707,7 @@ def trigger (cfg : Cfg) (s : Sys) (g : Ghost) : Op → Bool
     !cfg.repliesGuarded && decide (value = 1) &&
       ((decide (mode = 25) && decide (s.term.drv.mode.cursorvis = 0)) || (decide (mode = 12) && g.blink == some 0))
   | .replyShape _ => !cfg.repliesGuarded && g.shape.isSome
+  | .replySgr _ rgb => !cfg.rgb8Guarded && rgb && g.rgb8 == some 0
   | _ => false
 
 /-- Every value of the cached pen has an exact encoding. -/
@@ -831,14 +883,14 @@ theorem onModereport_ok (cfg : Cfg) (d : XDrv) (g : Ghost) (mode value : Int) (h
     (onModereport cfg d mode value).mode.cursorvis = d.mode.cursorvis ∧
     (onModereport cfg d mode value).mode.mouse = d.mode.mouse ∧
     (onModereport cfg d mode value).mode.keypad = d.mode.keypad := by
-  obtain ⟨h1, h2, h3, h4, h5, h6, h7, h8⟩ := hg
+  obtain ⟨h1, h2, h3, h4, h5, h6, h7, h8, h9⟩ := hg
   unfold onModereport
   by_cases hm12 : mode = 12
   · subst hm12
     simp only [if_true]
     by_cases hc : value = 1 ∧ (!cfg.repliesGuarded || decide (d.init.cursorblink = 0)) = true
     · rw [if_pos hc]
-      refine ⟨⟨h1, h2, h3, h4, ?_, h6, h7, ⟨h8.1, h8.2.1, h8.2.2.1, by simp [ModeLayout.w_mode_cursorblink, wrapU_w1]⟩⟩, rfl, rfl, rfl, rfl⟩
+      refine ⟨⟨h1, h2, h3, h4, ?_, h6, h7, ⟨h8.1, h8.2.1, h8.2.2.1, by simp [ModeLayout.w_mode_cursorblink, wrapU_w1]⟩, h9⟩, rfl, rfl, rfl, rfl⟩
       intro x hx
       obtain ⟨hx1, hx2⟩ := h5 x hx
       refine ⟨?_, fun _ => by simp [ModeLayout.w_initialised_cursorblink, wrapU_w1]⟩
@@ -851,7 +903,7 @@ theorem onModereport_ok (cfg : Cfg) (d : XDrv) (g : Ghost) (mode value : Int) (h
       · have := hx2 hgd
         simp [hgd, this] at hc
     · rw [if_neg hc]
-      refine ⟨⟨h1, h2, h3, h4, ?_, h6, h7, h8⟩, rfl, rfl, rfl, rfl⟩
+      refine ⟨⟨h1, h2, h3, h4, ?_, h6, h7, h8, h9⟩, rfl, rfl, rfl, rfl⟩
       intro x hx
       exact ⟨(h5 x hx).1, fun _ => by simp [ModeLayout.w_initialised_cursorblink, wrapU_w1]⟩
   · simp only [hm12, if_false]
@@ -873,20 +925,25 @@ theorem onModereport_ok (cfg : Cfg) (d : XDrv) (g : Ghost) (mode value : Int) (h
           · omega
         have hw : wrapU ModeLayout.w_mode_cursorvis 1 = d.mode.cursorvis := by
           rw [hv1]; simp [ModeLayout.w_mode_cursorvis, wrapU_w1]
-        refine ⟨⟨h1, ?_, h3, h4, h5, h6, ?_, ⟨h8.1, ?_, h8.2.2⟩⟩, rfl, ?_, rfl, rfl⟩
+        refine ⟨⟨h1, ?_, h3, h4, h5, h6, ?_, ⟨h8.1, ?_, h8.2.2⟩, h9⟩, rfl, ?_, rfl, rfl⟩
         · show g.vis = ((wrapU ModeLayout.w_mode_cursorvis 1 : Nat) : Int); rw [hw]; exact h2
         · intro _ _; simp [ModeLayout.w_initialised_cursorvis, wrapU_w1]
         · show wrapU ModeLayout.w_mode_cursorvis 1 ≤ 1; rw [hw]; exact h8.2.1
         · exact hw
       · rw [if_neg hc]
-        refine ⟨⟨h1, h2, h3, h4, h5, h6, ?_, h8⟩, rfl, rfl, rfl, rfl⟩
+        refine ⟨⟨h1, h2, h3, h4, h5, h6, ?_, h8, h9⟩, rfl, rfl, rfl, rfl⟩
         intro _ _; simp [ModeLayout.w_initialised_cursorvis, wrapU_w1]
     · simp only [hm25, if_false]
       by_cases hm69 : mode = 69
       · rw [if_pos hm69]
-        exact ⟨⟨h1, h2, h3, h4, h5, h6, h7, h8⟩, rfl, rfl, rfl, rfl⟩
+        refine ⟨⟨h1, h2, h3, h4, h5, h6, h7, h8, ?_⟩, rfl, rfl, rfl, rfl⟩
+        intro x hx
+        obtain ⟨hx1, hx2⟩ := h9 x hx
+        refine ⟨?_, hx2⟩
+        show x = ((if _ then _ else d.cap : Caps).rgb8 : Int)
+        split <;> exact hx1
       · rw [if_neg hm69]
-        exact ⟨⟨h1, h2, h3, h4, h5, h6, h7, h8⟩, rfl, rfl, rfl, rfl⟩
+        exact ⟨⟨h1, h2, h3, h4, h5, h6, h7, h8, h9⟩, rfl, rfl, rfl, rfl⟩
 
 theorem setctl_ret (cfg : Cfg) (d : XDrv) (c : Ctl) (v : Int)
     (hc : c = .altscreen ∨ c = .cursorvis ∨ c = .mouse ∨ c = .keypadApp) :
@@ -933,9 +990,10 @@ theorem setupterm_inv (cfg : Cfg) (hrec : cfg.keypadRecorded = true) (top : Top)
     refine ⟨m4, ?_, s4, l4, ?_, e4, e2, ?_⟩ <;> try (first | rfl | trivial)
     · rw [feed_append, feed_append, feed_append, feed_append, f1, f2, f3, f4, feed_clearScreen]
     · have hua' : (top.useAlt : Int) ≠ 0 := by omega
-      obtain ⟨a1, a2, a3, a4, a5, a6, a7, a8⟩ := g4
+      obtain ⟨a1, a2, a3, a4, a5, a6, a7, a8, a9⟩ := g4
       exact ⟨by simpa [Ghost.set, bool01, hua', hua] using a1, by simpa [Ghost.set, bool01] using a2, by simpa [Ghost.set] using a3,
-        by simpa [Ghost.set, bool01] using a4, by simpa [Ghost.set] using a5, by simpa [Ghost.set] using a6, a7, a8⟩
+        by simpa [Ghost.set, bool01] using a4, by simpa [Ghost.set] using a5, by simpa [Ghost.set] using a6, a7, a8,
+        by simpa [Ghost.set] using a9⟩
   · simp only [if_neg hua]
     obtain ⟨m2, f2, s2, l2, g2⟩ := setctl_all cfg hrec t0.drv g .cursorvis 0 m A (by simp) (by simp) hsh hml hgh
     obtain ⟨m3, f3, s3, l3, g3⟩ := setctl_all cfg hrec _ _ .mouse 2 m2 A (by simp) (by simp) s2 l2 g2
@@ -943,9 +1001,10 @@ theorem setupterm_inv (cfg : Cfg) (hrec : cfg.keypadRecorded = true) (top : Top)
     refine ⟨m4, ?_, s4, l4, ?_, e4, e2, ?_⟩ <;> try (first | rfl | trivial)
     · rw [feed_append, feed_append, feed_append, feed_append, feed_nil, f2, f3, f4, feed_clearScreen]
     · have hua' : ¬ (top.useAlt : Int) ≠ 0 := by omega
-      obtain ⟨a1, a2, a3, a4, a5, a6, a7, a8⟩ := g4
+      obtain ⟨a1, a2, a3, a4, a5, a6, a7, a8, a9⟩ := g4
       exact ⟨by simpa [Ghost.set, bool01, hua', hua] using a1, by simpa [Ghost.set, bool01] using a2, by simpa [Ghost.set] using a3,
-        by simpa [Ghost.set, bool01] using a4, by simpa [Ghost.set] using a5, by simpa [Ghost.set] using a6, a7, a8⟩
+        by simpa [Ghost.set, bool01] using a4, by simpa [Ghost.set] using a5, by simpa [Ghost.set] using a6, a7, a8,
+        by simpa [Ghost.set] using a9⟩
 
 theorem step_inv (cfg : Cfg) (s : Sys) (vt : VT) (ph ph' : Phase) (g : Ghost) (op : Op)
     (h : MInv cfg s vt ph g) (htk : TkInv s ph) (hok : opOk op = true) (hph : phaseNext ph op = some ph')
@@ -990,7 +1049,7 @@ theorem step_inv (cfg : Cfg) (s : Sys) (vt : VT) (ph ph' : Phase) (g : Ghost) (o
     obtain ⟨hd1, hd2⟩ := penNext_dom true s.term.pen p hpd hp
     simp only [Sys.step, Term.putpen]
     rw [feed_drvChpen _ _ _ _ _ _ hd2]
-    exact ⟨rfl, hml, hkz, hst, hsh, fun hne => absurd rfl hne, ⟨hgh.alt, hgh.vis, hgh.mouse, hgh.keypad, hgh.blink, hgh.shape, hgh.visInit, hgh.le1⟩, hsu, hd1⟩
+    exact ⟨rfl, hml, hkz, hst, hsh, fun hne => absurd rfl hne, ⟨hgh.alt, hgh.vis, hgh.mouse, hgh.keypad, hgh.blink, hgh.shape, hgh.visInit, hgh.le1, hgh.rgb8⟩, hsu, hd1⟩
   | chpen p =>
     cases ph <;> simp [phaseNext] at hph
     subst hph
@@ -998,7 +1057,7 @@ theorem step_inv (cfg : Cfg) (s : Sys) (vt : VT) (ph ph' : Phase) (g : Ghost) (o
     obtain ⟨hd1, hd2⟩ := penNext_dom false s.term.pen p hpd hp
     simp only [Sys.step, Term.putpen]
     rw [feed_drvChpen _ _ _ _ _ _ hd2]
-    exact ⟨rfl, hml, hkz, hst, hsh, fun hne => absurd rfl hne, ⟨hgh.alt, hgh.vis, hgh.mouse, hgh.keypad, hgh.blink, hgh.shape, hgh.visInit, hgh.le1⟩, hsu, hd1⟩
+    exact ⟨rfl, hml, hkz, hst, hsh, fun hne => absurd rfl hne, ⟨hgh.alt, hgh.vis, hgh.mouse, hgh.keypad, hgh.blink, hgh.shape, hgh.visInit, hgh.le1, hgh.rgb8⟩, hsu, hd1⟩
   | print bytes =>
     cases ph <;> simp [phaseNext] at hph
     subst hph
@@ -1050,7 +1109,7 @@ theorem step_inv (cfg : Cfg) (s : Sys) (vt : VT) (ph ph' : Phase) (g : Ghost) (o
     rw [Term.reply_running cfg _ _ (htk.tk rfl) htk.pend]
     refine ⟨rfl, hml, hkz, ?_, fun _ => ⟨hs.alt, hs.vis, hs.mouse, hs.sgr, hs.keypad⟩, fun hne => absurd rfl hne, ?_, hsu, hpd⟩
     · simpa using hst
-    · refine ⟨hgh.alt, hgh.vis, hgh.mouse, hgh.keypad, hgh.blink, ?_, hgh.visInit, hgh.le1⟩
+    · refine ⟨hgh.alt, hgh.vis, hgh.mouse, hgh.keypad, hgh.blink, ?_, hgh.visInit, hgh.le1, hgh.rgb8⟩
       intro x hx
       have hx : g.shape = some x := hx
       obtain ⟨hx1, hx2⟩ := hgh.shape x hx
@@ -1068,7 +1127,25 @@ theorem step_inv (cfg : Cfg) (s : Sys) (vt : VT) (ph ph' : Phase) (g : Ghost) (o
     rw [Term.reply_running cfg _ _ (htk.tk rfl) htk.pend]
     refine ⟨rfl, hml, hkz, ?_, fun _ => ⟨hs.alt, hs.vis, hs.mouse, hs.sgr, hs.keypad⟩, fun hne => absurd rfl hne, ?_, hsu, hpd⟩
     · simpa using hst
-    · exact ⟨hgh.alt, hgh.vis, hgh.mouse, hgh.keypad, hgh.blink, hgh.shape, hgh.visInit, hgh.le1⟩
+    · refine ⟨hgh.alt, hgh.vis, hgh.mouse, hgh.keypad, hgh.blink, hgh.shape, hgh.visInit, hgh.le1, ?_⟩
+      intro x hx
+      have hx : g.rgb8 = some x := hx
+      obtain ⟨hx1, hx01, hx2⟩ := hgh.rgb8 x hx
+      refine ⟨?_, hx01, hx2⟩
+      show x = ((onDecrqssSgr cfg s.term.drv colon rgb).cap.rgb8 : Int)
+      simp only [onDecrqssSgr]
+      split
+      · rename_i hc
+        cases hgd : cfg.rgb8Guarded
+        · -- unguarded: the trigger excludes a forced "off"
+          have hr : rgb = true := hc.1
+          simp only [trigger, hgd, hr, hx, Bool.not_false, Bool.true_and, beq_eq_false_iff_ne, ne_eq, Option.some.injEq] at hnt
+          rcases hx01 with h0 | h1
+          · exact absurd h0 hnt
+          · rw [h1]; simp [ModeLayout.w_cap_rgb8, wrapU_w1]
+        · have := hx2 hgd
+          simp [hgd, this] at hc
+      · exact hx1
   | pause =>
     cases ph <;> simp [phaseNext] at hph
     subst hph
@@ -1210,7 +1287,7 @@ theorem build_inv (cfg : Cfg) (toplevel : Bool) (m0 : VModes) (h : m0.standard =
   · simp [h3, modeForMouse]
   · simpa using h4
   · simpa using h5
-  · exact ⟨rfl, rfl, rfl, rfl, (fun _ hx => by cases hx), (fun _ hx => by cases hx), (fun _ hz => by cases hz), ⟨Nat.zero_le 1, Nat.le_refl 1, Nat.zero_le 1, Nat.zero_le 1⟩⟩
+  · exact ⟨rfl, rfl, rfl, rfl, (fun _ hx => by cases hx), (fun _ hx => by cases hx), (fun _ hz => by cases hz), ⟨Nat.zero_le 1, Nat.le_refl 1, Nat.zero_le 1, Nat.zero_le 1⟩, (fun _ hx => by cases hx)⟩
   · intro top ht
     cases toplevel <;> simp at ht
     subst ht; rfl
@@ -1219,7 +1296,7 @@ theorem build_inv (cfg : Cfg) (toplevel : Bool) (m0 : VModes) (h : m0.standard =
 theorem modesShown_of (cfg : Cfg) (d : XDrv) (g : Ghost) (m : VModes) (hs : Shown d.mode m) (hg : GhostOk cfg d g) :
     modesShown m g = true := by
   obtain ⟨a1, a2, a3, a4, a5⟩ := hs
-  obtain ⟨g1, g2, g3, g4, _, _, _, _⟩ := hg
+  obtain ⟨g1, g2, g3, g4, _, _, _, _, _⟩ := hg
   simp only [modesShown, Bool.and_eq_true, beq_iff_eq, decide_eq_true_eq]
   refine ⟨⟨⟨⟨?_, ?_⟩, ?_⟩, ?_⟩, ?_⟩
   · rw [a1, g1]; simp
@@ -1229,9 +1306,9 @@ theorem modesShown_of (cfg : Cfg) (d : XDrv) (g : Ghost) (m : VModes) (hs : Show
   · rw [a5, g4]; simp
 
 theorem getctlOk_of (cfg : Cfg) (d : XDrv) (g : Ghost) (hg : GhostOk cfg d g) : getctlOk d g = true := by
-  obtain ⟨g1, g2, g3, g4, g5, g6, _, _⟩ := hg
+  obtain ⟨g1, g2, g3, g4, g5, g6, _, _, g9⟩ := hg
   simp only [getctlOk, getctlInt, Bool.and_eq_true, beq_iff_eq, Bool.or_eq_true, Option.isNone_iff_eq_none]
-  refine ⟨⟨⟨⟨⟨?_, ?_⟩, ?_⟩, ?_⟩, ?_⟩, ?_⟩
+  refine ⟨⟨⟨⟨⟨⟨?_, ?_⟩, ?_⟩, ?_⟩, ?_⟩, ?_⟩, ?_⟩
   · rw [g1]
   · rw [g2]
   · rw [g3]
@@ -1242,6 +1319,9 @@ theorem getctlOk_of (cfg : Cfg) (d : XDrv) (g : Ghost) (hg : GhostOk cfg d g) : 
   · cases hb : g.shape with
     | none => left; rfl
     | some x => right; rw [(g6 x hb).1]
+  · cases hb : g.rgb8 with
+    | none => left; rfl
+    | some x => right; rw [(g9 x hb).1]
 
 theorem restoredOk_of (vt : VT) (m0 : VModes) (h0 : Off m0) (h : Off vt.modes) (ha : vt.attrs = Attrs.default) :
     restoredOk vt m0 = true := by
@@ -1345,13 +1425,13 @@ theorem toGroups_append (colon : Bool) : ∀ (as bs : List Param),
     | cons hd t => split <;> simp
 
 theorem fg_chunk (colon : Bool) (v : Int) (more : List PGroup) (A : Attrs) (h : -1 ≤ v ∧ v ≤ 255) :
-    sgrRun (toGroups colon (colourParams 30 39 v) ++ more) A = sgrRun more (A.set .fg v) := by
+    sgrRun (toGroups colon (paletteParams 30 39 v) ++ more) A = sgrRun more (A.set .fg v) := by
   have hv : v = -1 ∨ v = 0 ∨ v = 1 ∨ v = 2 ∨ v = 3 ∨ v = 4 ∨ v = 5 ∨ v = 6 ∨ v = 7 ∨ v = 8 ∨ v = 9 ∨ v = 10 ∨
       v = 11 ∨ v = 12 ∨ v = 13 ∨ v = 14 ∨ v = 15 ∨ 16 ≤ v := by omega
   rcases hv with rfl | rfl | rfl | rfl | rfl | rfl | rfl | rfl | rfl | rfl | rfl | rfl | rfl | rfl | rfl | rfl | rfl | hv
-  iterate 17 (cases colon <;> simp [colourParams, toGroups, sgrRun, sgrSingle, pv])
-  have e : colourParams 30 39 v = [⟨38, true⟩, ⟨5, true⟩, ⟨v, false⟩] := by
-    unfold colourParams; rw [if_neg (by omega), if_neg (by omega), if_neg (by omega)]; rfl
+  iterate 17 (cases colon <;> simp [paletteParams, toGroups, sgrRun, sgrSingle, pv])
+  have e : paletteParams 30 39 v = [⟨38, true⟩, ⟨5, true⟩, ⟨v, false⟩] := by
+    unfold paletteParams; rw [if_neg (by omega), if_neg (by omega), if_neg (by omega)]; rfl
   have hcast : ((v.toNat : Nat) : Int) = v := by omega
   rw [e]
   cases colon
@@ -1359,25 +1439,80 @@ theorem fg_chunk (colon : Bool) (v : Int) (more : List PGroup) (A : Attrs) (h : 
   · simp [toGroups, sgrRun, pv, colourOfSubs, hcast]
 
 theorem bg_chunk (colon : Bool) (v : Int) (more : List PGroup) (A : Attrs) (h : -1 ≤ v ∧ v ≤ 255) :
-    sgrRun (toGroups colon (colourParams 40 49 v) ++ more) A = sgrRun more (A.set .bg v) := by
+    sgrRun (toGroups colon (paletteParams 40 49 v) ++ more) A = sgrRun more (A.set .bg v) := by
   have hv : v = -1 ∨ v = 0 ∨ v = 1 ∨ v = 2 ∨ v = 3 ∨ v = 4 ∨ v = 5 ∨ v = 6 ∨ v = 7 ∨ v = 8 ∨ v = 9 ∨ v = 10 ∨
       v = 11 ∨ v = 12 ∨ v = 13 ∨ v = 14 ∨ v = 15 ∨ 16 ≤ v := by omega
   rcases hv with rfl | rfl | rfl | rfl | rfl | rfl | rfl | rfl | rfl | rfl | rfl | rfl | rfl | rfl | rfl | rfl | rfl | hv
-  iterate 17 (cases colon <;> simp [colourParams, toGroups, sgrRun, sgrSingle, pv])
-  have e : colourParams 40 49 v = [⟨48, true⟩, ⟨5, true⟩, ⟨v, false⟩] := by
-    unfold colourParams; rw [if_neg (by omega), if_neg (by omega), if_neg (by omega)]; rfl
+  iterate 17 (cases colon <;> simp [paletteParams, toGroups, sgrRun, sgrSingle, pv])
+  have e : paletteParams 40 49 v = [⟨48, true⟩, ⟨5, true⟩, ⟨v, false⟩] := by
+    unfold paletteParams; rw [if_neg (by omega), if_neg (by omega), if_neg (by omega)]; rfl
   have hcast : ((v.toNat : Nat) : Int) = v := by omega
   rw [e]
   cases colon
   · simp [toGroups, sgrRun, pv, hcast]
   · simp [toGroups, sgrRun, pv, colourOfSubs, hcast]
 
+/-- The 24-bit form `38;2;r;g;b` / `38:2:r:g:b`, read by the terminal. -/
+theorem fg_rgb_chunk (colon : Bool) (r g b : Int) (more : List PGroup) (A : Attrs) :
+    sgrRun (toGroups colon [⟨38, true⟩, ⟨2, true⟩, ⟨r, true⟩, ⟨g, true⟩, ⟨b, false⟩] ++ more) A =
+      sgrRun more (A.set .fg (rgbCode r.toNat g.toNat b.toNat)) := by
+  cases colon
+  · simp [toGroups, sgrRun, pv]
+  · simp [toGroups, sgrRun, pv, colourOfSubs]
+
+theorem bg_rgb_chunk (colon : Bool) (r g b : Int) (more : List PGroup) (A : Attrs) :
+    sgrRun (toGroups colon [⟨48, true⟩, ⟨2, true⟩, ⟨r, true⟩, ⟨g, true⟩, ⟨b, false⟩] ++ more) A =
+      sgrRun more (A.set .bg (rgbCode r.toNat g.toNat b.toNat)) := by
+  cases colon
+  · simp [toGroups, sgrRun, pv]
+  · simp [toGroups, sgrRun, pv, colourOfSubs]
+
+/-- The colour arm in two cases: the RGB8 form, or the palette form of the index. -/
+theorem colourParams_cases (rgb8 : Bool) (on off v : Int) :
+    colourParams rgb8 on off v =
+      if 0 ≤ colIndex v ∧ (rgb8 && hasRgb v) = true then
+        [⟨on + 8, true⟩, ⟨2, true⟩, ⟨colR v, true⟩, ⟨colG v, true⟩, ⟨colB v, false⟩]
+      else paletteParams on off (colIndex v) := by
+  unfold colourParams
+  by_cases h0 : colIndex v < 0
+  · rw [if_pos h0, if_neg (by omega)]
+    unfold paletteParams; rw [if_pos h0]
+  · rw [if_neg h0]
+    by_cases h1 : (rgb8 && hasRgb v) = true
+    · rw [if_pos h1, if_pos ⟨by omega, h1⟩]
+    · rw [if_neg h1, if_neg (fun hc => h1 hc.2)]
+
+theorem sem_colour (rgb8 : Bool) (a : Attr) (ha : a = .fg ∨ a = .bg) (v : Int) (h : ColDom v) :
+    sem rgb8 a v = if 0 ≤ colIndex v ∧ (rgb8 && hasRgb v) = true then rgbCode (colR v).toNat (colG v).toNat (colB v).toNat
+      else colIndex v := by
+  have hr := colIndex_range v h
+  rcases ha with rfl | rfl <;> simp only [sem]
+  all_goals
+    by_cases h0 : colIndex v < 0
+    · rw [if_pos h0, if_neg (by omega)]; omega
+    · rw [if_neg h0]
+      by_cases h1 : (rgb8 && hasRgb v) = true
+      · rw [if_pos h1, if_pos ⟨by omega, h1⟩]
+      · rw [if_neg h1, if_neg (fun hc => h1 hc.2)]
+
 /-- One attribute's parameters, read by the terminal: the attribute takes the pen's value. -/
-theorem chunk_sem (colon : Bool) (a : Attr) (v : Int) (h : inDomain a v = true) (more : List PGroup) (A : Attrs) :
-    sgrRun (toGroups colon (attrParams a v) ++ more) A = sgrRun more (A.set a (sem a v)) := by
+theorem chunk_sem (colon rgb8 : Bool) (a : Attr) (v : Int) (h : inDomain a v = true) (more : List PGroup) (A : Attrs) :
+    sgrRun (toGroups colon (attrParams rgb8 a v) ++ more) A = sgrRun more (A.set a (sem rgb8 a v)) := by
   cases a <;> simp only [inDomain, decide_eq_true_eq] at h
-  case fg => exact fg_chunk colon v more A h
-  case bg => exact bg_chunk colon v more A h
+  case fg =>
+    have hr := colIndex_range v h
+    simp only [attrParams]
+    rw [colourParams_cases, sem_colour rgb8 .fg (Or.inl rfl) v h]
+    split
+    · exact fg_rgb_chunk colon _ _ _ more A
+    · exact fg_chunk colon _ more A hr
+  case bg =>
+    have hr := colIndex_range v h
+    simp only [attrParams]
+    rw [colourParams_cases, sem_colour rgb8 .bg (Or.inr rfl) v h]
+    split
+    · exact bg_rgb_chunk colon _ _ _ more A
+    · exact bg_chunk colon _ more A hr
   case altfont =>
     have hv : v = -1 ∨ v = 0 ∨ v = 1 ∨ v = 2 ∨ v = 3 ∨ v = 4 ∨ v = 5 ∨ v = 6 ∨ v = 7 ∨ v = 8 ∨ v = 9 ∨ v = 10 := by omega
     rcases hv with rfl | rfl | rfl | rfl | rfl | rfl | rfl | rfl | rfl | rfl | rfl | rfl <;>
@@ -1389,61 +1524,76 @@ theorem chunk_sem (colon : Bool) (a : Attr) (v : Int) (h : inDomain a v = true) 
 /-! ### the whole `delta` -/
 
 /-- The parameters one attribute contributes. -/
-def chunkOf (delta : PenMap) (a : Attr) : List Param :=
+def chunkOf (rgb8 : Bool) (delta : PenMap) (a : Attr) : List Param :=
   match delta a with
   | none => []
-  | some v => attrParams a v
+  | some v => attrParams rgb8 a v
 
-theorem deltaParams_eq (delta : PenMap) : deltaParams delta = Attr.all.flatMap (chunkOf delta) := rfl
+theorem deltaParams_eq (rgb8 : Bool) (delta : PenMap) : deltaParams rgb8 delta = Attr.all.flatMap (chunkOf rgb8 delta) := rfl
 
 /-- What `delta` does to the terminal's attributes, attribute by attribute. -/
-def applyDelta (delta : PenMap) (as : List Attr) (A : Attrs) : Attrs :=
+def applyDelta (rgb8 : Bool) (delta : PenMap) (as : List Attr) (A : Attrs) : Attrs :=
   as.foldl (fun acc a => match delta a with
-    | some v => acc.set a (sem a v)
+    | some v => acc.set a (sem rgb8 a v)
     | none => acc) A
 
-theorem attrParams_last (a : Attr) (v : Int) : ∀ p, (attrParams a v).getLast? = some p → p.sub = false := by
+theorem paletteParams_last (on off i : Int) : ∀ p, (paletteParams on off i).getLast? = some p → p.sub = false := by
   intro p hp
-  cases a <;> simp only [attrParams, colourParams] at hp
+  unfold paletteParams at hp
+  (repeat' split at hp) <;> simp at hp <;> subst hp <;> rfl
+
+theorem colourParams_last (rgb8 : Bool) (on off v : Int) : ∀ p, (colourParams rgb8 on off v).getLast? = some p → p.sub = false := by
+  intro p hp
+  rw [colourParams_cases] at hp
+  split at hp
+  · simp at hp; subst hp; rfl
+  · exact paletteParams_last on off _ p hp
+
+theorem attrParams_last (rgb8 : Bool) (a : Attr) (v : Int) : ∀ p, (attrParams rgb8 a v).getLast? = some p → p.sub = false := by
+  intro p hp
+  cases a
+  case fg => exact colourParams_last rgb8 30 39 v p hp
+  case bg => exact colourParams_last rgb8 40 49 v p hp
+  all_goals simp only [attrParams] at hp
   all_goals (repeat' split at hp) <;> simp at hp <;> (try subst hp) <;> rfl
 
-theorem chunkOf_last (delta : PenMap) (a : Attr) : ∀ p, (chunkOf delta a).getLast? = some p → p.sub = false := by
+theorem chunkOf_last (rgb8 : Bool) (delta : PenMap) (a : Attr) : ∀ p, (chunkOf rgb8 delta a).getLast? = some p → p.sub = false := by
   intro p hp
   unfold chunkOf at hp
   cases hd : delta a with
   | none => simp [hd] at hp
-  | some v => simp only [hd] at hp; exact attrParams_last a v p hp
+  | some v => simp only [hd] at hp; exact attrParams_last rgb8 a v p hp
 
-theorem sgrRun_chunks (colon : Bool) (delta : PenMap) (hdom : PenDom delta) :
+theorem sgrRun_chunks (colon rgb8 : Bool) (delta : PenMap) (hdom : PenDom delta) :
     ∀ (as : List Attr) (more : List PGroup) (A : Attrs),
-      sgrRun (toGroups colon (as.flatMap (chunkOf delta)) ++ more) A = sgrRun more (applyDelta delta as A)
+      sgrRun (toGroups colon (as.flatMap (chunkOf rgb8 delta)) ++ more) A = sgrRun more (applyDelta rgb8 delta as A)
   | [], more, A => rfl
   | a :: rest, more, A => by
     simp only [List.flatMap_cons]
-    rw [toGroups_append colon _ _ (chunkOf_last delta a), List.append_assoc]
+    rw [toGroups_append colon _ _ (chunkOf_last rgb8 delta a), List.append_assoc]
     cases hd : delta a with
     | none =>
-      have : chunkOf delta a = [] := by simp [chunkOf, hd]
+      have : chunkOf rgb8 delta a = [] := by simp [chunkOf, hd]
       rw [this]
       simp only [toGroups, List.nil_append, applyDelta, List.foldl_cons, hd]
-      exact sgrRun_chunks colon delta hdom rest more A
+      exact sgrRun_chunks colon rgb8 delta hdom rest more A
     | some v =>
-      have : chunkOf delta a = attrParams a v := by simp [chunkOf, hd]
-      rw [this, chunk_sem colon a v (hdom a v hd)]
+      have : chunkOf rgb8 delta a = attrParams rgb8 a v := by simp [chunkOf, hd]
+      rw [this, chunk_sem colon rgb8 a v (hdom a v hd)]
       simp only [applyDelta, List.foldl_cons, hd]
-      exact sgrRun_chunks colon delta hdom rest more _
+      exact sgrRun_chunks colon rgb8 delta hdom rest more _
 
-theorem applyDelta_get (delta : PenMap) : ∀ (as : List Attr) (A : Attrs) (a : Attr), as.Nodup →
-    applyDelta delta as A a = if a ∈ as then (match delta a with
-      | some v => sem a v
+theorem applyDelta_get (rgb8 : Bool) (delta : PenMap) : ∀ (as : List Attr) (A : Attrs) (a : Attr), as.Nodup →
+    applyDelta rgb8 delta as A a = if a ∈ as then (match delta a with
+      | some v => sem rgb8 a v
       | none => A a) else A a
   | [], A, a, _ => by simp [applyDelta]
   | x :: rest, A, a, hnd => by
     have hx : x ∉ rest := (List.nodup_cons.mp hnd).1
     have hr : rest.Nodup := (List.nodup_cons.mp hnd).2
     simp only [applyDelta, List.foldl_cons]
-    have ih := applyDelta_get delta rest (match delta x with
-      | some v => A.set x (sem x v)
+    have ih := applyDelta_get rgb8 delta rest (match delta x with
+      | some v => A.set x (sem rgb8 x v)
       | none => A) a hr
     simp only [applyDelta] at ih
     rw [ih]
@@ -1452,7 +1602,7 @@ theorem applyDelta_get (delta : PenMap) : ∀ (as : List Attr) (A : Attrs) (a : 
       simp only [hx, if_false, List.mem_cons, true_or, if_true]
       cases delta a <;> simp [Attrs.set]
     · have hset : (match delta x with
-          | some v => A.set x (sem x v)
+          | some v => A.set x (sem rgb8 x v)
           | none => A) a = A a := by
         cases delta x <;> simp [Attrs.set, hax]
       simp only [List.mem_cons, hax, false_or, hset]
@@ -1461,22 +1611,22 @@ theorem Attr.all_nodup : Attr.all.Nodup := by decide
 theorem Attr.mem_all (a : Attr) : a ∈ Attr.all := by cases a <;> simp [Attr.all]
 
 /-- The terminal's attributes after `chpen(delta, final)` when an SGR with parameters is sent. -/
-theorem sgrRun_deltaParams (colon : Bool) (delta : PenMap) (hdom : PenDom delta) (A : Attrs) (a : Attr)
-    (hne : deltaParams delta ≠ []) :
-    sgrRun (groupsAcc colon [] [] (deltaParams delta)) A a = match delta a with
-      | some v => sem a v
+theorem sgrRun_deltaParams (colon rgb8 : Bool) (delta : PenMap) (hdom : PenDom delta) (A : Attrs) (a : Attr)
+    (hne : deltaParams rgb8 delta ≠ []) :
+    sgrRun (groupsAcc colon [] [] (deltaParams rgb8 delta)) A a = match delta a with
+      | some v => sem rgb8 a v
       | none => A a := by
   rw [groupsAcc_eq colon _ [] [] hne]
-  have hg : attach [] (toGroups colon (deltaParams delta)) = toGroups colon (deltaParams delta) := by
-    cases h : toGroups colon (deltaParams delta) with
+  have hg : attach [] (toGroups colon (deltaParams rgb8 delta)) = toGroups colon (deltaParams rgb8 delta) := by
+    cases h : toGroups colon (deltaParams rgb8 delta) with
     | nil => exact absurd h (toGroups_ne_nil colon _ hne)
     | cons x t => simp [attach]
   rw [List.nil_append, hg, deltaParams_eq]
-  have := sgrRun_chunks colon delta hdom Attr.all [] A
+  have := sgrRun_chunks colon rgb8 delta hdom Attr.all [] A
   rw [List.append_nil] at this
   rw [this]
   simp only [sgrRun]
-  rw [applyDelta_get delta Attr.all A a Attr.all_nodup, if_pos (Attr.mem_all a)]
+  rw [applyDelta_get rgb8 delta Attr.all A a Attr.all_nodup, if_pos (Attr.mem_all a)]
 
 
 /-! ### every operation writes complete sequences (whatever the shadow holds) -/
@@ -1595,12 +1745,19 @@ theorem setupterm_ground (cfg : Cfg) (top : Top) (t : Term) (m : VModes) (A : At
     rw [f4, feed_clearScreen]
     exact ⟨m4, rfl, e2, e4⟩
 
-theorem attrParams_ne_nil (a : Attr) (v : Int) (h : inDomain a v = true) : attrParams a v ≠ [] := by
-  cases a <;> simp only [inDomain, decide_eq_true_eq] at h <;> simp only [attrParams, colourParams]
+theorem paletteParams_ne_nil (on off i : Int) : paletteParams on off i ≠ [] := by
+  unfold paletteParams
+  (repeat' split) <;> simp
+
+theorem attrParams_ne_nil (rgb8 : Bool) (a : Attr) (v : Int) (h : inDomain a v = true) : attrParams rgb8 a v ≠ [] := by
+  cases a
+  case fg => simp only [attrParams]; rw [colourParams_cases]; split; simp; exact paletteParams_ne_nil _ _ _
+  case bg => simp only [attrParams]; rw [colourParams_cases]; split; simp; exact paletteParams_ne_nil _ _ _
+  all_goals (simp only [inDomain, decide_eq_true_eq] at h; simp only [attrParams])
   all_goals (repeat' split) <;> simp
   all_goals omega
 
-theorem deltaParams_nil (delta : PenMap) (hdom : PenDom delta) (h : deltaParams delta = []) : ∀ a, delta a = none := by
+theorem deltaParams_nil (rgb8 : Bool) (delta : PenMap) (hdom : PenDom delta) (h : deltaParams rgb8 delta = []) : ∀ a, delta a = none := by
   intro a
   rw [deltaParams_eq] at h
   have := (List.flatMap_eq_nil_iff.mp h) a (Attr.mem_all a)
@@ -1608,13 +1765,20 @@ theorem deltaParams_nil (delta : PenMap) (hdom : PenDom delta) (h : deltaParams 
   | none => rfl
   | some v =>
     simp only [chunkOf, hd] at this
-    exact absurd this (attrParams_ne_nil a v (hdom a v hd))
+    exact absurd this (attrParams_ne_nil rgb8 a v (hdom a v hd))
 
 /-- A value that `tickit_pen_nondefault_attr` does not count means the default rendition. -/
-theorem sem_of_not_nondefault (p : PenMap) (a : Attr) (v : Int) (hp : p a = some v) (hd : inDomain a v = true)
-    (h : nondefaultAttr p a = false) : sem a v = dflt a := by
+theorem sem_of_not_nondefault (rgb8 : Bool) (p : PenMap) (a : Attr) (v : Int) (hp : p a = some v) (hd : inDomain a v = true)
+    (h : nondefaultAttr p a = false) : sem rgb8 a v = dflt a := by
   simp only [nondefaultAttr, hp] at h
-  cases a <;> simp only [inDomain, decide_eq_true_eq] at hd <;> simp [Attr.kind] at h <;> simp [sem, dflt, Attr.kind] <;> omega
+  cases a
+  case fg =>
+    have h1 : colIndex v = -1 := by simpa [Attr.kind] using h
+    simp [sem, dflt, Attr.kind, h1]
+  case bg =>
+    have h1 : colIndex v = -1 := by simpa [Attr.kind] using h
+    simp [sem, dflt, Attr.kind, h1]
+  all_goals (simp only [inDomain, decide_eq_true_eq] at hd <;> simp [Attr.kind] at h <;> simp [sem, dflt, Attr.kind] <;> omega)
 
 theorem sgrRun_reset (A : Attrs) : sgrRun (groupsAcc c [] [] []) A = Attrs.default := by
   simp [groupsAcc, sgrRun, sgrSingle, pv]
@@ -1623,22 +1787,24 @@ theorem sgrRun_reset (A : Attrs) : sgrRun (groupsAcc c [] [] []) A = Attrs.defau
 theorem chpen_establishes (d : XDrv) (cur next delta : PenMap) (A : Attrs)
     (hdd : PenDom delta) (hdn : PenDom next)
     (h0 : ∀ a, delta a = none → next a = cur a) (h1 : ∀ a v, delta a = some v → next a = some v)
-    (ih : ∀ a v, cur a = some v → A a = sem a v) :
+    (ih : ∀ a v, cur a = some v → A a = sem d.rgbOn a v) :
     ∀ a v, next a = some v →
-      (if (deltaParams delta).isEmpty then A
-        else sgrRun (groupsAcc (decide (d.cap.csiSubColon ≠ 0)) [] [] (if isNondefault next then deltaParams delta else [])) A) a
-        = sem a v := by
+      (if (deltaParams d.rgbOn delta).isEmpty then A
+        else sgrRun (groupsAcc (decide (d.cap.csiSubColon ≠ 0)) [] []
+          (if isNondefault next then deltaParams d.rgbOn delta else [])) A) a
+        = sem d.rgbOn a v := by
   intro a v hn
-  by_cases he : (deltaParams delta).isEmpty = true
+  generalize d.rgbOn = rgb8 at *
+  by_cases he : (deltaParams rgb8 delta).isEmpty = true
   · rw [if_pos he]
-    have hnil : deltaParams delta = [] := by simpa using he
-    have := deltaParams_nil delta hdd hnil a
+    have hnil : deltaParams rgb8 delta = [] := by simpa using he
+    have := deltaParams_nil rgb8 delta hdd hnil a
     rw [h0 a this] at hn
     exact ih a v hn
   · rw [if_neg he]
-    have hne : deltaParams delta ≠ [] := by simpa using he
+    have hne : deltaParams rgb8 delta ≠ [] := by simpa using he
     by_cases hnd : isNondefault next = true
-    · rw [if_pos hnd, sgrRun_deltaParams _ delta hdd A a hne]
+    · rw [if_pos hnd, sgrRun_deltaParams _ rgb8 delta hdd A a hne]
       cases hd : delta a with
       | none =>
         simp only
@@ -1653,15 +1819,62 @@ theorem chpen_establishes (d : XDrv) (cur next delta : PenMap) (A : Attrs)
       have hall : nondefaultAttr next a = false := by
         simp only [isNondefault, List.any_eq_true, not_exists, not_and, Bool.not_eq_true] at hnd
         exact hnd a (Attr.mem_all a)
-      exact (sem_of_not_nondefault next a v hn (hdn a v hn) hall).symm
+      exact (sem_of_not_nondefault rgb8 next a v hn (hdn a v hn) hall).symm
 
 
 /-! ### the invariant of the rendition -/
 
-/-- Every value of the pen means the default rendition. -/
+/-- Every value of the pen means the default rendition (whatever the terminal's colour capability). -/
 def allDefault (p : PenMap) : Bool := Attr.all.all fun a => match p a with
-  | some v => sem a v == dflt a
+  | some v => sem false a v == dflt a
   | none => true
+
+theorem sem_dflt_any (rgb8 : Bool) (a : Attr) (v : Int) (h : sem false a v = dflt a) : sem rgb8 a v = dflt a := by
+  cases a
+  case fg =>
+    simp only [sem, dflt, Attr.kind, Bool.false_and] at h ⊢
+    by_cases h0 : colIndex v < 0
+    · rw [if_pos h0]
+    · rw [if_neg h0] at h; simp at h; omega
+  case bg =>
+    simp only [sem, dflt, Attr.kind, Bool.false_and] at h ⊢
+    by_cases h0 : colIndex v < 0
+    · rw [if_pos h0]
+    · rw [if_neg h0] at h; simp at h; omega
+  all_goals exact h
+
+/-- The capability only matters for colours with an RGB8 refinement of a non-default index. -/
+theorem sem_cap (p : PenMap) (r1 r2 : Bool) (h : capSensitive p = false ∨ r1 = r2) (a : Attr) (v : Int)
+    (hp : p a = some v) : sem r1 a v = sem r2 a v := by
+  rcases h with h | h
+  · simp only [capSensitive, List.any_cons, List.any_nil, Bool.or_false, Bool.or_eq_false_iff] at h
+    cases a
+    case fg =>
+      have h1 := h.1
+      simp only [hp, Bool.and_eq_false_imp, decide_eq_false_iff_not] at h1
+      simp only [sem]
+      by_cases h0 : colIndex v < 0
+      · rw [if_pos h0, if_pos h0]
+      · rw [if_neg h0, if_neg h0]
+        have : hasRgb v = false := by
+          cases hh : hasRgb v
+          · rfl
+          · exact absurd (by omega) (h1 hh)
+        simp [this]
+    case bg =>
+      have h1 := h.2
+      simp only [hp, Bool.and_eq_false_imp, decide_eq_false_iff_not] at h1
+      simp only [sem]
+      by_cases h0 : colIndex v < 0
+      · rw [if_pos h0, if_pos h0]
+      · rw [if_neg h0, if_neg h0]
+        have : hasRgb v = false := by
+          cases hh : hasRgb v
+          · rfl
+          · exact absurd (by omega) (h1 hh)
+        simp [this]
+    all_goals rfl
+  · rw [h]
 
 /-- The operation that triggers the pen defect of the unrepaired tree: a resume while a visible pen is cached. -/
 def penTrigger (cfg : Cfg) (s : Sys) : Op → Bool
@@ -1674,7 +1887,7 @@ structure PInv (s : Sys) (vt : VT) (ph : Phase) (g : Ghost) : Prop where
   ground : vt.ps = .ground
   pen : s.term.pen = g.pen
   dom : PenDom s.term.pen
-  shown : ph = .running → ∀ a v, s.term.pen a = some v → vt.attrs a = sem a v
+  shown : ph = .running → ∀ a v, s.term.pen a = some v → vt.attrs a = sem s.term.drv.rgbOn a v
   off : ph ≠ .running → vt.attrs = Attrs.default
   st : ph = .stopped ↔ s.term.state = .unstarted
 
@@ -1705,12 +1918,12 @@ theorem penDelta_some (isSet : Bool) (cur pen : PenMap) (a : Attr) (v : Int) (h 
   · cases h
   · rename_i hs; rw [if_neg hs]; exact h
 
-theorem allDefault_sem (p : PenMap) (h : allDefault p = true) : ∀ a v, p a = some v → dflt a = sem a v := by
+theorem allDefault_sem (rgb8 : Bool) (p : PenMap) (h : allDefault p = true) : ∀ a v, p a = some v → dflt a = sem rgb8 a v := by
   intro a v hp
   simp only [allDefault, List.all_eq_true] at h
   have := h a (Attr.mem_all a)
   simp only [hp, beq_iff_eq] at this
-  exact this.symm
+  exact (sem_dflt_any rgb8 a v this).symm
 
 theorem Ghost.set_pen (g : Ghost) (c : Option Ctl) (v : Int) : (g.set c v).pen = g.pen := by
   cases c with
@@ -1719,19 +1932,29 @@ theorem Ghost.set_pen (g : Ghost) (c : Option Ctl) (v : Int) : (g.set c v).pen =
 
 theorem pstep_inv (cfg : Cfg) (s : Sys) (vt : VT) (ph ph' : Phase) (g : Ghost) (op : Op)
     (h : PInv s vt ph g) (htk : TkInv s ph) (hok : opOk op = true) (hph : phaseNext ph op = some ph')
-    (hnt : penTrigger cfg s op = false) :
+    (hnt : penTrigger cfg s op = false) (hcap : capKept cfg s op = true) :
     PInv (s.step cfg op).sys (VT.feed vt (s.step cfg op).out) ph' (g.step op (s.step cfg op).ret s.ua) := by
   obtain ⟨ps, m, A⟩ := vt
   obtain ⟨hgr, hpen, hdom, hsh, hoff, hst⟩ := h
   simp only at hgr; subst hgr
+  have hsem : ∀ a v, s.term.pen a = some v →
+      sem (s.step cfg op).sys.term.drv.rgbOn a v = sem s.term.drv.rgbOn a v := by
+    intro a v hp
+    apply sem_cap s.term.pen _ _ _ a v hp
+    simp only [capKept, Bool.or_eq_true, Bool.not_eq_true', beq_iff_eq] at hcap
+    exact hcap
+  have hsh' : ph = .running → ∀ a v, s.term.pen a = some v →
+      A a = sem (s.step cfg op).sys.term.drv.rgbOn a v :=
+    fun hr a v hp => (hsh hr a v hp).trans (hsem a v hp).symm
+  clear hsem hcap
   cases op with
   | ctl c v =>
     cases ph <;> simp [phaseNext] at hph
     subst hph
     obtain ⟨m', hf⟩ := setctl_ground cfg s.term.drv c v m A
-    simp only [Sys.step, Term.setctl]
+    simp only [Sys.step, Term.setctl] at hsh' ⊢
     rw [hf]
-    refine ⟨rfl, ?_, hdom, hsh, fun hne => absurd rfl hne, by simpa using hst⟩
+    refine ⟨rfl, ?_, hdom, fun _ => hsh' trivial, fun hne => absurd rfl hne, by simpa using hst⟩
     simp only [Ghost.step]
     split
     · rw [Ghost.set_pen]; exact hpen
@@ -1790,26 +2013,26 @@ theorem pstep_inv (cfg : Cfg) (s : Sys) (vt : VT) (ph ph' : Phase) (g : Ghost) (
     cases ph <;> simp [phaseNext] at hph
     subst hph
     obtain ⟨_, e2, _, e4, _⟩ := Term.await_fields s.term msec
-    simp only [Sys.step, feed_nil]
-    exact ⟨rfl, by rw [e2]; exact hpen, by rw [e2]; exact hdom, fun _ => by rw [e2]; exact hsh rfl, hoff, by simp [e4]⟩
+    simp only [Sys.step, feed_nil] at hsh' ⊢
+    exact ⟨rfl, by rw [e2]; exact hpen, by rw [e2]; exact hdom, fun _ => by rw [e2]; exact hsh' trivial, hoff, by simp [e4]⟩
   | replyMode mode value =>
     cases ph <;> simp [phaseNext] at hph
     subst hph
-    simp only [Sys.step, feed_nil]
-    rw [Term.reply_running cfg _ _ (htk.tk rfl) htk.pend]
-    exact ⟨rfl, hpen, hdom, hsh, hoff, by simpa using hst⟩
+    simp only [Sys.step, feed_nil] at hsh' ⊢
+    rw [Term.reply_running cfg _ _ (htk.tk rfl) htk.pend] at hsh' ⊢
+    exact ⟨rfl, hpen, hdom, fun _ => hsh' trivial, hoff, by simpa using hst⟩
   | replyShape value =>
     cases ph <;> simp [phaseNext] at hph
     subst hph
-    simp only [Sys.step, feed_nil]
-    rw [Term.reply_running cfg _ _ (htk.tk rfl) htk.pend]
-    exact ⟨rfl, hpen, hdom, hsh, hoff, by simpa using hst⟩
+    simp only [Sys.step, feed_nil] at hsh' ⊢
+    rw [Term.reply_running cfg _ _ (htk.tk rfl) htk.pend] at hsh' ⊢
+    exact ⟨rfl, hpen, hdom, fun _ => hsh' trivial, hoff, by simpa using hst⟩
   | replySgr colon rgb =>
     cases ph <;> simp [phaseNext] at hph
     subst hph
-    simp only [Sys.step, feed_nil]
-    rw [Term.reply_running cfg _ _ (htk.tk rfl) htk.pend]
-    exact ⟨rfl, hpen, hdom, hsh, hoff, by simpa using hst⟩
+    simp only [Sys.step, feed_nil] at hsh' ⊢
+    rw [Term.reply_running cfg _ _ (htk.tk rfl) htk.pend] at hsh' ⊢
+    exact ⟨rfl, hpen, hdom, fun _ => hsh' trivial, hoff, by simpa using hst⟩
   | pause =>
     cases ph <;> simp [phaseNext] at hph
     subst hph
@@ -1840,9 +2063,9 @@ theorem pstep_inv (cfg : Cfg) (s : Sys) (vt : VT) (ph ph' : Phase) (g : Ghost) (
         have hrf : cfg.resumeResendsPen = false := by simpa using hr
         simpa [penTrigger, hrf] using hnt
       intro a v hp
-      show A a = sem a v
+      show A a = sem _ a v
       rw [hA]
-      exact allDefault_sem _ hall a v hp
+      exact allDefault_sem _ _ hall a v hp
   | teardown =>
     have hns : s.term.state ≠ .unstarted := by
       intro hc
@@ -1864,7 +2087,7 @@ theorem pstep_inv (cfg : Cfg) (s : Sys) (vt : VT) (ph ph' : Phase) (g : Ghost) (
   | tick nosetup =>
     cases ph <;> simp [phaseNext] at hph
     subst hph
-    simp only [Sys.step]
+    simp only [Sys.step] at hsh' ⊢
     cases htop : s.top with
     | none =>
       simp only [Sys.ua, htop, Option.map_none, Ghost.step]
@@ -1875,10 +2098,11 @@ theorem pstep_inv (cfg : Cfg) (s : Sys) (vt : VT) (ph ph' : Phase) (g : Ghost) (
         intro c _ x hx; split; exact hx; rfl
       by_cases hcond : (!top.doneSetup && !nosetup) = true
       · rw [if_pos hcond]
+        simp only [htop, if_pos hcond] at hsh'
         obtain ⟨m', hf, hp', hs'⟩ := setupterm_ground cfg top s.term m A
         simp only
         rw [hf]
-        refine ⟨rfl, ?_, by rw [hp']; exact hdom, fun _ => by rw [hp']; exact hsh rfl, fun hne => absurd rfl hne, by simp [hs']⟩
+        refine ⟨rfl, ?_, by rw [hp']; exact hdom, fun _ => by rw [hp']; exact hsh' trivial, fun hne => absurd rfl hne, by simp [hs']⟩
         rw [hp', hpen]
         symm; apply hgp; rfl
       · rw [if_neg hcond]
@@ -1893,14 +2117,20 @@ def noPenTrigger (cfg : Cfg) : Sys → List Op → Bool
   | _, [] => true
   | s, op :: rest => !penTrigger cfg s op && noPenTrigger cfg (s.step cfg op).sys rest
 
+/-- The contract about the RGB8 capability along a history (`capKept` for every operation). -/
+def capKeptRun (cfg : Cfg) : Sys → List Op → Bool
+  | _, [] => true
+  | s, op :: rest => capKept cfg s op && capKeptRun cfg (s.step cfg op).sys rest
+
 theorem prun_inv (cfg : Cfg) : ∀ (ops : List Op) (s : Sys) (vt : VT) (ph ph' : Phase) (g : Ghost),
     PInv s vt ph g → TkInv s ph → validFrom ph ops = some ph' → noPenTrigger cfg s ops = true →
+    capKeptRun cfg s ops = true →
     PInv (Sys.run cfg s ops).1 (VT.feed vt (Sys.run cfg s ops).2) ph' (ghostRun cfg s g ops)
-  | [], s, vt, ph, ph', g, h, _, hv, _ => by
+  | [], s, vt, ph, ph', g, h, _, hv, _, _ => by
     simp only [validFrom, Option.some.injEq] at hv
     subst hv
     simpa [Sys.run, ghostRun] using h
-  | op :: rest, s, vt, ph, ph', g, h, htk, hv, hnt => by
+  | op :: rest, s, vt, ph, ph', g, h, htk, hv, hnt, hck => by
     simp only [validFrom] at hv
     split at hv
     · rename_i hok
@@ -1909,8 +2139,9 @@ theorem prun_inv (cfg : Cfg) : ∀ (ops : List Op) (s : Sys) (vt : VT) (ph ph' :
       | some ph1 =>
         simp only [hp, Option.bind_some] at hv
         simp only [noPenTrigger, Bool.and_eq_true, Bool.not_eq_true'] at hnt
-        have h1 := pstep_inv cfg s vt ph ph1 g op h htk hok hp hnt.1
-        have h2 := prun_inv cfg rest _ _ ph1 ph' _ h1 (tk_step cfg s ph ph1 op htk hp) hv hnt.2
+        simp only [capKeptRun, Bool.and_eq_true] at hck
+        have h1 := pstep_inv cfg s vt ph ph1 g op h htk hok hp hnt.1 hck.1
+        have h2 := prun_inv cfg rest _ _ ph1 ph' _ h1 (tk_step cfg s ph ph1 op htk hp) hv hnt.2 hck.2
         simpa [Sys.run, ghostRun, feed_append] using h2
     · cases hv
 
@@ -1920,7 +2151,8 @@ theorem build_pinv (toplevel : Bool) (m0 : VModes) :
   rw [feed_startBytes]
   exact ⟨rfl, rfl, (fun a v hx => by cases hx), (fun _ a v hx => by cases hx), fun hne => absurd rfl hne, by simp⟩
 
-theorem penShown_of (s : Sys) (vt : VT) (g : Ghost) (h : PInv s vt .running g) : penShown vt.attrs g.pen = true := by
+theorem penShown_of (s : Sys) (vt : VT) (g : Ghost) (h : PInv s vt .running g) :
+    penShown s.term.drv.rgbOn vt.attrs g.pen = true := by
   simp only [penShown, List.all_eq_true]
   intro k _
   cases hk : g.pen k with
@@ -1965,9 +2197,9 @@ theorem after_inv (cfg : Cfg) (toplevel : Bool) (m0 : VModes) (ops : List Op) (p
     MInv cfg (sysAfter cfg toplevel ops) (vtAfter cfg toplevel m0 ops) ph (ghostAfter cfg toplevel ops) :=
   run_inv cfg ops _ _ .running ph {} (build_inv cfg toplevel m0 hm0) (build_tk toplevel) hv hnt
 
-/-- With the keypad recorded and the replies guarded nothing is a trigger. -/
+/-- With the keypad recorded and the replies guarded (cursor controls and forced RGB8) nothing is a trigger. -/
 theorem triggerFree_of_repaired (cfg : Cfg) (hk : cfg.keypadRecorded = true) (hr : cfg.repliesGuarded = true)
-    (toplevel : Bool) (ops : List Op) : TriggerFree cfg toplevel ops := by
+    (hq : cfg.rgb8Guarded = true) (toplevel : Bool) (ops : List Op) : TriggerFree cfg toplevel ops := by
   unfold TriggerFree
   generalize (Sys.build toplevel).1 = s
   generalize ({} : Ghost) = g
@@ -1976,7 +2208,7 @@ theorem triggerFree_of_repaired (cfg : Cfg) (hk : cfg.keypadRecorded = true) (hr
   | cons op rest ih =>
     simp only [noTrigger, Bool.and_eq_true, Bool.not_eq_true']
     refine ⟨?_, ih _ _⟩
-    cases op <;> simp [trigger, hk, hr]
+    cases op <;> simp [trigger, hk, hr, hq]
     rename_i c v
     cases c with
     | none => rfl
@@ -2018,5 +2250,171 @@ def PenTriggerFree (cfg : Cfg) (toplevel : Bool) (ops : List Op) : Prop := noPen
 instance (cfg : Cfg) (toplevel : Bool) (ops : List Op) : Decidable (PenTriggerFree cfg toplevel ops) := by
   unfold PenTriggerFree; infer_instance
 
+
+/-- The RGB8 capability is not changed while the pen holds a colour that depends on it. -/
+def CapKept (cfg : Cfg) (toplevel : Bool) (ops : List Op) : Prop := capKeptRun cfg (Sys.build toplevel).1 ops = true
+
+instance (cfg : Cfg) (toplevel : Bool) (ops : List Op) : Decidable (CapKept cfg toplevel ops) := by
+  unfold CapKept; infer_instance
+
+/-! ### the output buffer -/
+
+theorem OBuf.write_stream (b : OBuf) (bytes : Out) :
+    (b.write bytes).2 ++ (b.write bytes).1.pend = b.pend ++ bytes ∧ (b.write bytes).1.cap = b.cap := by
+  unfold OBuf.write
+  split
+  · simp
+  · simp only [List.take_append_drop, and_self]
+
+/-- Whatever the buffer's size and content: what a call delivers followed by what it leaves in the buffer is
+    what was in the buffer followed by what the call wrote; a call that ends with a flush leaves nothing. -/
+theorem OBuf.call_stream (b : OBuf) (bytes : Out) (fl : Bool) :
+    (b.call bytes fl).2 ++ (b.call bytes fl).1.pend = b.pend ++ bytes ∧ (b.call bytes fl).1.cap = b.cap ∧
+      (fl = true → (b.call bytes fl).1.pend = [] ∧ (b.call bytes fl).2 = b.pend ++ bytes) := by
+  obtain ⟨h1, h2⟩ := OBuf.write_stream b bytes
+  unfold OBuf.call
+  cases fl
+  · simp only [Bool.false_eq_true, if_false, false_imp_iff, and_true]; exact ⟨h1, h2⟩
+  · simp only [if_true, OBuf.flush, List.append_nil, forall_const, true_and]
+    rw [h1]; exact ⟨rfl, h2, rfl⟩
+
+/-- One operation on a terminal with output buffer `b`: new system, new buffer, bytes delivered to the
+    output function during the call. -/
+def Sys.stepB (cfg : Cfg) (s : Sys) (b : OBuf) (op : Op) : Sys × OBuf × Out :=
+  let r := s.step cfg op
+  let c := b.call r.out r.flush
+  (r.sys, c.1, c.2)
+
+/-- A history on a terminal with an output buffer: the bytes delivered. -/
+def Sys.runB (cfg : Cfg) : Sys → OBuf → List Op → Sys × OBuf × Out
+  | s, b, [] => (s, b, [])
+  | s, b, op :: rest =>
+    let r := s.stepB cfg b op
+    let q := Sys.runB cfg r.1 r.2.1 rest
+    (q.1, q.2.1, r.2.2 ++ q.2.2)
+
+/-- Buffering only delays: delivered bytes followed by the buffer's content are the bytes written. -/
+theorem runB_stream (cfg : Cfg) : ∀ (ops : List Op) (s : Sys) (b : OBuf),
+    (Sys.runB cfg s b ops).1 = (Sys.run cfg s ops).1 ∧
+    (Sys.runB cfg s b ops).2.2 ++ (Sys.runB cfg s b ops).2.1.pend = b.pend ++ (Sys.run cfg s ops).2
+  | [], s, b => by simp [Sys.runB, Sys.run]
+  | op :: rest, s, b => by
+    obtain ⟨h1, _, _⟩ := OBuf.call_stream b (s.step cfg op).out (s.step cfg op).flush
+    obtain ⟨i1, i2⟩ := runB_stream cfg rest (s.step cfg op).sys (b.call (s.step cfg op).out (s.step cfg op).flush).1
+    simp only [Sys.runB, Sys.stepB, Sys.run]
+    refine ⟨i1, ?_⟩
+    rw [List.append_assoc, i2, ← List.append_assoc, h1, List.append_assoc]
+
+theorem runB_append (cfg : Cfg) (b1 : List Op) : ∀ (a : List Op) (s : Sys) (b : OBuf),
+    Sys.runB cfg s b (a ++ b1) =
+      ((Sys.runB cfg (Sys.runB cfg s b a).1 (Sys.runB cfg s b a).2.1 b1).1,
+       (Sys.runB cfg (Sys.runB cfg s b a).1 (Sys.runB cfg s b a).2.1 b1).2.1,
+       (Sys.runB cfg s b a).2.2 ++ (Sys.runB cfg (Sys.runB cfg s b a).1 (Sys.runB cfg s b a).2.1 b1).2.2)
+  | [], s, b => by simp [Sys.runB]
+  | op :: rest, s, b => by
+    simp only [List.cons_append, Sys.runB]
+    rw [runB_append cfg b1 rest]
+    simp [List.append_assoc]
+
+/-- `tickit_term_pause` and `tickit_term_teardown` end with a flush. -/
+theorem step_flush_pause_teardown (cfg : Cfg) (s : Sys) (op : Op) (h : op = .pause ∨ op = .teardown) :
+    (s.step cfg op).flush = true := by
+  rcases h with rfl | rfl <;> rfl
+
+/-- A history inside the contract that does not leave the terminal running ends with pause or teardown. -/
+theorem ends_with_pause_or_teardown : ∀ (ops : List Op) (ph ph' : Phase), validFrom ph ops = some ph' → ph' ≠ .running →
+    (ops = [] ∧ ph = ph') ∨ ∃ init last, ops = init ++ [last] ∧ (last = .pause ∨ last = .teardown)
+  | [], ph, ph', hv, _ => by
+    simp only [validFrom, Option.some.injEq] at hv
+    exact Or.inl ⟨rfl, hv⟩
+  | op :: rest, ph, ph', hv, hne => by
+    right
+    simp only [validFrom] at hv
+    split at hv
+    · cases hp : phaseNext ph op with
+      | none => simp [hp] at hv
+      | some ph1 =>
+        simp only [hp, Option.bind_some] at hv
+        rcases ends_with_pause_or_teardown rest ph1 ph' hv hne with ⟨rfl, rfl⟩ | ⟨init, last, rfl, hl⟩
+        · refine ⟨[], op, rfl, ?_⟩
+          cases ph <;> cases op <;> simp [phaseNext] at hp <;> first | exact absurd hp.symm hne | simp
+        · exact ⟨op :: init, last, rfl, hl⟩
+    · cases hv
+
+/-- After a history inside the contract that ends paused or torn down, nothing is left in the output buffer,
+    whatever its size: every byte written has reached the output function when the last call returns. -/
+theorem runB_nothing_pending (cfg : Cfg) (ops : List Op) (ph : Phase) (s : Sys) (cap : Nat)
+    (hv : validFrom .running ops = some ph) (hne : ph ≠ .running) :
+    (Sys.runB cfg s { cap := cap } ops).2.1.pend = [] ∧ (Sys.runB cfg s { cap := cap } ops).2.2 = (Sys.run cfg s ops).2 := by
+  have hpend : (Sys.runB cfg s { cap := cap } ops).2.1.pend = [] := by
+    rcases ends_with_pause_or_teardown ops .running ph hv hne with ⟨_, rfl⟩ | ⟨init, last, rfl, hl⟩
+    · exact absurd rfl hne
+    · rw [runB_append]
+      simp only [Sys.runB, Sys.stepB]
+      rw [step_flush_pause_teardown cfg _ last hl]
+      exact ((OBuf.call_stream _ _ true).2.2 rfl).1
+  refine ⟨hpend, ?_⟩
+  have := (runB_stream cfg ops s { cap := cap }).2
+  rw [hpend] at this
+  simpa using this
+
+/-! ### a terminal shared with another holder -/
+
+theorem Term.teardown_twice (t : Term) : (Term.teardown (Term.teardown t).1).2 = [] ∧ (Term.teardown t).1.state = .unstarted := by
+  unfold Term.teardown
+  split <;> simp_all
+
+/-- Destroying the toplevel instance writes the same bytes whether or not the terminal survives it. -/
+theorem dropOwner_top (s : Sys) (extra : Nat) (h : s.top.isSome = true) : (s.dropOwner extra).2 = s.destroy := by
+  unfold Sys.dropOwner Sys.destroy
+  cases ht : s.top with
+  | none => simp [ht] at h
+  | some top =>
+    simp only
+    split
+    · rfl
+    · rw [(Term.teardown_twice s.term).1, List.append_nil]
+
+/-- The terminal that survives its toplevel instance is torn down, and its own destruction writes nothing more. -/
+theorem dropOwner_left (s : Sys) (extra : Nat) (h : s.top.isSome = true) (left : Sys) (hl : (s.dropOwner extra).1 = some left) :
+    left.term.state = .unstarted ∧ left.destroy = [] ∧ left.top = none := by
+  unfold Sys.dropOwner at hl
+  cases ht : s.top with
+  | none => simp [ht] at h
+  | some top =>
+    simp only [ht] at hl
+    split at hl
+    · cases hl
+    · simp only [Option.some.injEq] at hl
+      subst hl
+      have h2 := (Term.teardown_twice s.term).2
+      refine ⟨h2, ?_, rfl⟩
+      simp only [Sys.destroy]
+      have : ∀ t : Term, t.state = .unstarted → (Term.teardown t).2 = [] ∧ (Term.teardown t).1.state = .unstarted := by
+        intro t ht; unfold Term.teardown; simp [ht]
+      obtain ⟨a1, a2⟩ := this _ h2
+      rw [a1, (this _ a2).1]; rfl
+
+theorem step_top (cfg : Cfg) (s : Sys) (op : Op) : (s.step cfg op).sys.top.isSome = s.top.isSome := by
+  cases op <;> simp only [Sys.step] <;> try rfl
+  all_goals (cases ht : s.top <;> simp only [] <;> (try split) <;> simp [ht])
+
+theorem run_top (cfg : Cfg) : ∀ (ops : List Op) (s : Sys), (Sys.run cfg s ops).1.top.isSome = s.top.isSome
+  | [], _ => rfl
+  | op :: rest, s => by
+    simp only [Sys.run]
+    rw [run_top cfg rest, step_top]
+
+theorem capKeptRun_append_pause_resume (cfg : Cfg) (ops : List Op) : ∀ (s : Sys),
+    capKeptRun cfg s ops = true → capKeptRun cfg s (ops ++ [.pause, .resume]) = true := by
+  induction ops with
+  | nil => intro s _; simp [capKeptRun, capKept, Sys.step, Term.pause, Term.resume]
+  | cons op rest ih =>
+    intro s h
+    simp only [List.cons_append, capKeptRun, Bool.and_eq_true] at h ⊢
+    exact ⟨h.1, ih _ h.2⟩
+
+theorem noPenTrigger_append_pause_resume (cfg : Cfg) (hr : cfg.resumeResendsPen = true) (ops : List Op) (s : Sys) :
+    noPenTrigger cfg s (ops ++ [.pause, .resume]) = true := noPenTrigger_of_repaired cfg hr _ s
 
 end Tickit.Modes
